@@ -30,13 +30,13 @@ def slack(lb, ub, k=4):
 
 
 def cases(ctx):
-    for i in range(ctx.pick(500, 12000)):
+    for i in range(ctx.pick(500, 48000)):
         yield "lhs", {"seed": ctx.subseed("l", i), "maxN": ctx.pick(200, 2000), "hostile": i % 3 == 0}
-    for i in range(ctx.pick(240, 6000)):
+    for i in range(ctx.pick(240, 24000)):
         yield "halton", {"seed": ctx.subseed("h", i), "maxN": ctx.pick(200, 2000)}
-    for i in range(ctx.pick(300, 7500)):
+    for i in range(ctx.pick(300, 30000)):
         yield "uniform", {"seed": ctx.subseed("u", i)}
-    for i in range(ctx.pick(400, 9000)):
+    for i in range(ctx.pick(400, 36000)):
         yield "random", {"seed": ctx.subseed("r", i), "maxN": ctx.pick(200, 2000), "hostile": i % 2 == 0}
 
 
